@@ -10,6 +10,17 @@ import time
 def main():
     prop, cname, out = sys.argv[1:4]
     t0 = time.time()
+    # the symbolic interpreter adds frames of its own: code that recurses ~100 deep natively (the union of all
+    # printable characters behind '.' in PythonRegex) would hit the default limit only under tracing
+    sys.setrecursionlimit(12000)
+    import threading
+    threading.stack_size(256 * 1024 * 1024)
+    th = threading.Thread(target=_main, args=(prop, cname, out, t0))
+    th.start()
+    th.join()
+
+
+def _main(prop, cname, out, t0):
     from vlib import chx, registry
     cond = registry.find(prop, cname)
     chx.configure_crosshair()
